@@ -32,6 +32,7 @@ META["technique"] += '; emission-to-resync no-advance typestate; who-may-build-t
 META["technique"] += '; polarity-aware path facts for the position guards; sentinel handling of the line searches; source hand-through in BaseLoader.load; unless/if parse comparator'
 META["technique"] += "; template-name provenance of errors raised from stored tokens (value objects that travel between templates)"
 META["technique"] += '; unconditional computed position properties in token.py'
+META["technique"] += '; message-subject vs token= agreement of raised errors'
 META["level_text"] += " Also decided (R1c, R4): the scan pointer does not move between a token's emission and the resync (no gap), and no token is built outside the lexer with a position of its own (only the position-less end-of-input token)."
 
 S, U, T = "synced", "unsynced", "unknown"
@@ -975,6 +976,32 @@ def run(prog: Program, res: Result) -> None:
             else:
                 res.ok("C17.R17", site, what, norm(rets[0].value, 50))
     res.floor("C17.R17", "computed position properties", n17, 4)
+    # ---------------------------------------------------------------- R18: the token an error carries is the token its message is about
+    res.rule("C17.R18", "an error points at what it talks about: where the message of a raised LiquidError formats `<t>.type_` / `<t>.value` of a token expression, the `token=` argument is that same expression - `expected a primitive expression, found COMMA` carrying the token *after* the comma (or the position-less end-of-input token) puts line, column and pointer on another construct")
+    n18 = 0
+    for fi18 in sorted(prog.all_functions(), key=lambda f: (f.file, f.node.lineno)):
+        for c18 in ast.walk(fi18.node):
+            if not (isinstance(c18, ast.Call) and (dotted(c18.func) or "").endswith("Error") and c18.args and isinstance(c18.args[0], ast.JoinedStr) and prog.enclosing_function(fi18.module, c18) is fi18):
+                continue
+            kw18 = next((k.value for k in c18.keywords if k.arg == "token"), None)
+            if kw18 is None:
+                continue
+            subjects = set()
+            for v18 in c18.args[0].values:
+                if isinstance(v18, ast.FormattedValue):
+                    for x18 in ast.walk(v18.value):
+                        if isinstance(x18, ast.Attribute) and x18.attr in ("type_", "kind") and isinstance(x18.value, (ast.Name, ast.Call)):
+                            subjects.add(norm(x18.value))
+            if not subjects:
+                continue
+            n18 += 1
+            site = f"{fi18.file}:{c18.lineno} {fi18.qualname}"
+            what = f"{fi18.qualname}: the error about `{sorted(subjects)[0]}` carries that token"
+            if norm(kw18) in subjects:
+                res.ok("C17.R18", site, what, f"token={norm(kw18)}")
+            else:
+                res.fail("C17.R18", file=fi18.file, line=c18.lineno, qualname=fi18.qualname, construct=f"{fi18.qualname}: message about `{sorted(subjects)[0]}`, token=`{norm(kw18, 30)}`", message=f"{fi18.qualname} reports the kind of `{sorted(subjects)[0]}` in its message and hands `token={norm(kw18, 40)}` to the error: position, line and pointer belong to another token (the one after it, or the end-of-input token that has no position at all)", what=what)
+    res.floor("C17.R18", "errors whose message names a token's kind", n18, 8)
     # ---------------------------------------------------------------- R16: a token that travels keeps its template's name with it
     res.rule("C17.R16", "an error raised from a *stored* token names the template that token belongs to: a value object that is created in one template's context and may be used while another template renders (the Undefined family: passed on as a `render` / `include` / macro argument) raises with the template name captured together with the token - otherwise render_with_context of the template in which the hook happens to fire fills in its own name, and the message shows `partial:1:18` over a line of the parent")
     node16 = [prog.cls("liquid2.ast.Node"), prog.cls("liquid2.expression.Expression"), prog.cls("liquid2.tag.Tag")]
